@@ -100,3 +100,22 @@ def vendor_id(vendor_name):
 
 def class_id(vendor_name, class_name):
     return UUID5(UUID5(NAMESPACE_DNS, vendor_name), class_name)
+
+
+# ---- C04 / C09: COSE_Sign1 ---------------------------------------------------------------------------
+def cose_sign_alg(name):
+    """COSE algorithm identifier of the five supported signing algorithms (RFC 9053 / draft-ietf-cose-hash-eddsa)."""
+    return (-7 if name == "es-256" else -35 if name == "es-384" else -36 if name == "es-521" else -8 if name == "eddsa" else -65537)
+
+
+def protected_header(alg_name, key_id):
+    return {1: cose_sign_alg(alg_name), 4: ENC(key_id)}
+
+
+def sig_structure(alg_name, key_id, digest_bstr):
+    """COSE Sig_structure ['Signature1', protected bstr, external_aad, payload] with the envelope's (bstr-wrapped) digest."""
+    return ENC(["Signature1", ENC(protected_header(alg_name, key_id)), b"", digest_bstr])
+
+
+def auth_block(alg_name, key_id, signature):
+    return ENC(TAG(18, [ENC(protected_header(alg_name, key_id)), {}, None, signature]))
